@@ -43,6 +43,7 @@ def strategy(tier):
         "cuts": st.lists(st.integers(1, 12000), max_size=6),
         # a read boundary exactly at / inside the CRLF that ends the request line or the head
         "bcut": st.sampled_from([None, None, "rl-1", "rl", "rl+1", "rl+2", "head-3", "head-2", "head-1", "head"]),
+        "proxy": st.sampled_from([False, False, True]),
     })
 
 
@@ -103,16 +104,27 @@ def run_case(case):
     stream, m = build_limits(case)
     line, fields, fsize = eff_limits(case)
     cfg = penv.make_cfg(limit_request_line=case["line"], limit_request_fields=case["fields"],
-                        limit_request_field_size=case["fsize"], header_map=case["header_map"])
+                        limit_request_field_size=case["fsize"], header_map=case["header_map"], proxy_protocol=bool(case.get("proxy")))
+    pline = b""
+    if case.get("proxy"):
+        # a (valid, allowed) PROXY v1 line in front: the limits apply to the request line that follows it just the same
+        pline = b"PROXY TCP4 192.0.2.1 192.0.2.2 1111 80\r\n"
+        if line == 0 or len(pline) - 2 <= line:
+            stream = pline + stream
+        else:
+            pline = b""
     cuts = list(case["cuts"])
     if case.get("bcut"):
         head_end = stream.find(b"\r\n\r\n") + 4
+        m = dict(m, L=m["L"] + len(pline))
         base, _, d = case["bcut"].partition("+") if "+" in case["bcut"] else (case["bcut"].partition("-")[0], "", "-" + case["bcut"].partition("-")[2] if "-" in case["bcut"] else "0")
         off = (m["L"] if base == "rl" else head_end) + int(d or 0)
         cuts.append(off)
         if case.get("big_at", 0) % 2:
             cuts = [off]                 # sometimes the boundary cut is the only one
     reqs, terminal = penv.observe(stream, penv_cap(cuts, len(stream)), cfg)
+    if pline:
+        m = dict(m, L=m["L"] - len(pline)) if case.get("bcut") else m
     over = []
     band = []
     if line > 0:
@@ -145,7 +157,7 @@ def run_case(case):
             vio.append(Violation("within-limits-accepted", "C12/within-limits-not-yielded:" + terminal,
                                  observed={"terminal": terminal, "measures": m}, expected="request yielded"))
     near = (line > 0 and abs(m["L"] - line) <= 3) or abs(m["nf"] - fields) <= 3 or (fsize > 0 and abs(m["maxF"] - fsize) <= 3)
-    classes = ["over:" + ("+".join(over) or "none"), "band:" + ("+".join(band) or "none"),
+    classes = ["proxy:%s" % bool(pline), "over:" + ("+".join(over) or "none"), "band:" + ("+".join(band) or "none"),
                "underscore:%s" % m["has_underscore"], "terminal:" + terminal.split(":")[-1]]
     return Outcome(vio, near, classes,
                    sample={"limits": [case["line"], case["fields"], case["fsize"]], "measures": m, "over": over, "band": band,
@@ -173,6 +185,7 @@ ENDLESS = {
     "request-line": (b"GET /", b"a" * 64, False, "line0"),
     "request-line-spaces": (b"GET / ", b"HTTP/1.1 " * 8, False, "line0"),
     "proxy-line": (b"PROXY TCP4 ", b"1" * 64, False, "line0"),
+    "request-line-after-proxy": (b"PROXY TCP4 192.0.2.1 192.0.2.2 1111 80\r\nGET /", b"a" * 64, False, "line0"),
     "header-line": (b"GET / HTTP/1.1\r\nX-A: ", b"v" * 64, False, None),
     "header-name": (b"GET / HTTP/1.1\r\n", b"N" * 64, False, None),
     "header-block": (b"GET / HTTP/1.1\r\n", b"X-A: v\r\n" * 8, False, None),
@@ -235,7 +248,7 @@ def run_endless(case):
     name = case["source"]
     prefix, unit, needs_body, exempt = ENDLESS[name]
     kw = dict(ENDLESS_CFGS[case["cfg"]])
-    if name == "proxy-line":
+    if name in ("proxy-line", "request-line-after-proxy"):
         kw["proxy_protocol"] = True
     cfg = penv.make_cfg(**kw)
     line = cfg.limit_request_line
